@@ -101,6 +101,8 @@ def floors(tier: str) -> dict[str, int]:
         "template_vs_registry": 50_000 * k,
         "lambda_form_comparisons": 5_000 * k,
         "string_vs_number_comparisons": 20_000 * k,
+        "template_local_variable_applications": 10_000 * k,
+        "set:local_binding_sites": 6,
         "history_panel_comparisons": 4_000,
         "priming_calls_state_checked": 1_000,
         "set:primed_filters": 70,
